@@ -17,12 +17,19 @@ Oracle per generated document d (all on the real implementation):
   cli        `octave seal` then `octave validate --verify-seal --require-seal` exit status (and on tampered / unsealed files)
 A mutated / respelled text is judged only when the reader reads it back as the content the generator meant
 (otherwise the case belongs to the reader/emitter findings F1–F11 of C01–C03 and is counted, not judged).
+The `text` and `cli` clauses themselves are judged on EVERY document made of constructs the reader reads back as written
+(project_docs.text_safe, a predicate over the input): a document whose canonical text stopped being a fixed point of
+emit . parse — a string value written bare and re-read as a literal, a comment, an operator … — fails the clause.
+Documents: corpus + node templates + the deterministic family project_gen.lookalike_docs (string values that are
+something else in the language when written bare or taken for layout, in every position a string can take) + seeded
+structured documents drawing from the same pools.
 """
 from __future__ import annotations
 
 import hashlib
 import json
 import os
+import re
 
 import vlib
 from harness import project_docs as PD
@@ -38,7 +45,7 @@ ANCHORS = [("octave_mcp/core/sealer.py", "compute_seal"), ("octave_mcp/core/seal
            ("octave_mcp/cli/main.py", "validate"), ("octave_mcp/core/emitter.py", "emit"),
            ("octave_mcp/core/ast_nodes.py", None)]
 
-FEATS = ("lists", "imaps", "zones", "meta", "comments", "sections", "nested_sections", "dups", "holo", "assign_after_block", "meta_nested", "mlstr")
+FEATS = ("lists", "imaps", "zones", "meta", "comments", "sections", "nested_sections", "dups", "holo", "assign_after_block", "meta_nested", "mlstr", "lookalikes")
 
 
 # ---------------------------------------------------------------------------------------------
@@ -55,7 +62,48 @@ def kf_frontmatter_and_sentinel(case):
     return case.get("clause") in ("text", "cli") and case["doc"]["front"] is not None and bool(case["doc"]["gv"])
 
 
-CLASSES = {f.__name__: f for f in (kf_seal_keyed_section_inserted,)}
+# C15N1 -------------------------------------------------------------------------------------------------------------
+# Own transcription of "the canonical text shows this string without quotes although it contains the constraint operator":
+# identifier segments joined by expression operators, one of them U+2227, no reserved word as an operand (the class is a set of
+# INPUTS; it must not move when the emitter under test moves).
+_OPS = "\u2295\u29fa\u21cc\u2227\u2228\u2192@"
+_SEG = r"[A-Za-z_][A-Za-z0-9_.\-]*(?<!-)"
+_BARE_EXPR = re.compile("^" + _SEG + "(?:[" + _OPS + "]" + _SEG + ")+\\Z")
+_RESERVED_OPERAND = re.compile("(?:^|[" + _OPS + "])(?:true|false|null|vs)(?![A-Za-z0-9_])")
+
+
+def bare_constraint_string(s):
+    return "\u2227" in s and bool(_BARE_EXPR.match(s)) and not _RESERVED_OPERAND.search(s)
+
+
+def _holds_bare_constraint(v):
+    return any(x["t"] == "str" and bare_constraint_string(x["v"]) for x in PD.walk_values(v))
+
+
+def sole_item_container_with_bare_constraint(v):
+    """v is a list with exactly ONE item (no comma at its own bracket depth), that item is itself a list — or an inline map whose value
+    is a list / map — and somewhere inside it sits a string written bare with U+2227."""
+    if v["t"] != "list" or len(v["v"]) != 1:
+        return False
+    x = v["v"][0]
+    if x["t"] == "list":
+        return _holds_bare_constraint(x)
+    if x["t"] == "imap":
+        return len(x["v"]) == 1 and x["v"][0][1]["t"] in ("list", "imap") and _holds_bare_constraint(x["v"][0][1])
+    return False
+
+
+def kf_bare_constraint_string_in_sole_nested_item(case):
+    """C15N1: the document holds a one-item list whose item is a list (or an inline map of a list) containing a string that canonical
+    emission writes bare although it contains the constraint operator (K::[["a∧b","c"]] is written with the inner list as `[a∧b,c]` on a line of its own): the reader
+    takes the outer list of the written text for a holographic pattern (a CONSTRAINT token anywhere inside, no comma at depth 1), so the
+    sealed text reads back as a different document and its seal reports INVALID (clauses text / cli; in memory it verifies)."""
+    return case.get("clause") in ("text", "cli") and any(sole_item_container_with_bare_constraint(v) for v in PD.doc_values(case["doc"]))
+
+
+CLASSES = {f.__name__: f for f in (kf_seal_keyed_section_inserted, kf_bare_constraint_string_in_sole_nested_item)}
+LOOKALIKE_SET = set(PG.LOOKALIKE_POOL + PG.RESERVED_PREFIX_POOL)
+LOOKALIKE_ZONES = {z[0] for z in PG.ZONE_LINE_BOUNDARY_POOL}
 
 
 def same(a, b):
@@ -160,9 +208,18 @@ def run_case(case):
     both = doc["front"] is not None and bool(doc["gv"])          # class of F53: judged, then classified
     safe = PD.text_safe({**doc, "gv": None}) if both else PD.text_safe(doc)
     body_text = emit(ast)
-    if not safe or (not both and emit(parse(body_text)) != body_text):
+    if not safe:
         cnt("text_skipped:body_outside_reader_roundtrip")
         return out
+    # "sealed => VERIFIED after being written out and read back" is demanded of EVERY document made of constructs the reader reads back as
+    # written (text_safe, an input-based predicate) — in particular when canonical emission stopped being a fixed point for the document
+    # (a string value now written bare and re-read as a literal / comment / operator): that is the property failing, not a case to set
+    # aside.  (On the unchanged tree emit(parse(emit(d))) == emit(d) holds for every generated text-safe document; counted to keep it visible.)
+    try:
+        if not both and emit(parse(body_text)) != body_text:
+            cnt("text_judged:canonical_text_of_the_body_is_not_a_fixed_point")
+    except Exception:
+        cnt("text_judged:canonical_text_of_the_body_is_rejected_by_the_reader")
     d2, m2 = read_back(stext)
     if d2 is None:
         check("text", False, expected="VERIFIED", got="the emitted sealed text is rejected by the reader", text=stext)
@@ -170,6 +227,14 @@ def run_case(case):
     st2 = guarded("text", lambda: verify_seal(d2).status.value)
     check("text", st2 == "VERIFIED", expected="VERIFIED", got=st2, text=stext)
     if st2 != "VERIFIED" or m2 is None:
+        return out
+    if case.get("light"):
+        # members of a large deterministic family: in-memory / no-seal / reseal / seal-body / text (+ CLI) clauses only; a fixed
+        # subset of the family and the seeded documents (which draw from the same pools) get the tamper and cosmetic clauses
+        cnt("light_case")
+        if case.get("cli"):
+            for c in cli_checks(body_text, None, case["cli"]):
+                check("cli", c["ok"], **{k: v for k, v in c.items() if k != "ok"})
         return out
     # the sealed document as a model: body as generated + the seal section as read back
     if not same(PM.strip_seal(m2), PM.strip_seal(sealed_model)):
@@ -318,6 +383,23 @@ def build_cases(ctx):
         ts = PG.templates(("sections", "holo"))
         for t in ts:
             cases.append({"doc": PD.DOC([PD.A("FIRST", PD.vint(1)), dict(t)], meta=[("TYPE", PD.vstr("T"))]), "via": "text", "origin": "exh"})
+    # deterministic family: string values that are something else in the language when written bare or taken for layout (wrong-case /
+    # foreign literals, comment- / path- / fence- / marker- / operator- / number- / bracket-like texts, characters str.splitlines() takes for
+    # a line boundary), in every position a string value can take (scalar nested / in a section / last node, list item first / middle /
+    # last, inline-map value, META field, META list item, literal-zone content), through the text route and the API route.  Every member
+    # gets the in-memory / no-seal / reseal / seal-body / text clauses; every 7th (7 is coprime to the 6 cases per string, so every
+    # position x route is hit) also the tamper and cosmetic clauses — all of them in the thorough tier and when the search is widened;
+    # a fixed handful also the CLI.
+    fam = PG.lookalike_docs()
+    fam_cli = {("scalar", "True"), ("list", "NULL"), ("meta", "False"), ("scalar", "//cdn.example.com/app.js"), ("list", "//"), ("meta", "./x"),
+               ("list", "a-"), ("scalar", "#x"), ("scalar", "first paragraph\u2028second paragraph"), ("list", "page1\x0cpage2"), ("meta", "nel\x85nel"),
+               ("zone", "a\u2028b"), ("zone", "v\x0bt"), ("scalar", "cr\rcr")}
+    k = 0
+    for pos, s, d in fam:
+        for via in ("text", "ast"):
+            cases.append({"doc": d, "via": via, "origin": "lookalike", "light": (not ctx.thorough) and ctx.widen <= 1 and k % 7 != 0, "fam_pos": pos,
+                          "fam_cli": via == "text" and (pos, s) in fam_cli})
+            k += 1
     for i in range(n_text):
         cases.append({"doc": PG.gen_doc(rng, FEATS, maxdepth=3, from_text=True, envelope=True), "via": "text", "origin": "rnd_text"})
     for i in range(n_ast):
@@ -327,16 +409,23 @@ def build_cases(ctx):
     for i, c in enumerate(cases):
         c["seed"] = rng.randrange(1 << 30)
         # corpus / template documents get every mutation at every site; random ones are capped (every kind kept)
-        c["mut_cap"] = None if c["origin"] != "rnd_text" and c["origin"] != "rnd_ast" else (120 if ctx.thorough else (60 if w > 1 else 40))
+        c["mut_cap"] = None if c["origin"] not in ("rnd_text", "rnd_ast", "lookalike") else (120 if ctx.thorough else (60 if w > 1 else 40))
         c["corr_cap"] = 12
         c["n_mix"] = 6 if ctx.thorough else 3
         c["cli"] = None
-    text_idx = [i for i, c in enumerate(cases) if c["via"] == "text"]
+        if c["origin"] == "lookalike" and not ctx.thorough:
+            c["mut_cap"], c["corr_cap"], c["n_mix"] = 0, 3, 1          # cap 0 = one mutation of every kind
+    # the CLI sample is drawn from the documents that were there before the family was added (its size is unchanged); the family has its
+    # own fixed CLI members
+    text_idx = [i for i, c in enumerate(cases) if c["via"] == "text" and c["origin"] != "lookalike"]
     rng.shuffle(text_idx)
     for i in text_idx[:n_cli_in]:
         cases[i]["cli"] = "inproc"
     for i in text_idx[n_cli_in:n_cli_in + n_cli_sub]:
         cases[i]["cli"] = "subprocess"
+    for c in cases:
+        if c.get("fam_cli"):
+            c["cli"] = "inproc"
     return cases
 
 
@@ -351,6 +440,15 @@ def replay_findings(ctx, findings):
                 bad = [c for c in sealed["checks"] if c["clause"] == "tamper" and c.get("kind") == "insert_seal_keyed_section" and not c["ok"]]
                 if bad:
                     ctx.known_reproduced.append((f, f"insert_seal_keyed_section -> {bad[0]['got']} (required INVALID)"))
+                else:
+                    ctx.notes.append(f"known finding {f['id']} no longer reproduces on its witness (fixed?)")
+            elif f["cls"] == "kf_bare_constraint_string_in_sole_nested_item":
+                bad = []
+                for via in ("text", "ast"):
+                    r = run_case({"doc": w["doc"], "via": via, "seed": 0, "mut_cap": 0, "corr_cap": 0, "n_mix": 0, "cli": None, "light": True})
+                    bad += [c for c in r["checks"] if c["clause"] == "text" and not c["ok"]]
+                if bad:
+                    ctx.known_reproduced.append((f, f"emit -> parse -> verify gives {bad[0]['got']} (required VERIFIED)"))
                 else:
                     ctx.notes.append(f"known finding {f['id']} no longer reproduces on its witness (fixed?)")
             elif f["cls"] == "kf_frontmatter_and_sentinel":
@@ -374,7 +472,7 @@ def run(ctx: vlib.Ctx):
     # the seal theorems take "a change of content changes the emitted text" as a hypothesis about the emitter; the text
     # engine proves it for flat documents, block trees, META, sections and list values (C15_*_emit_injective): build and audit those modules too
     ctx.translate("text")
-    ctx.lean("text", ["Octave.Props.C01roundtrip", "Octave.Props.C01tree", "Octave.Props.C01meta", "Octave.Props.C01sections", "Octave.Props.C01lists", "Octave.Props.C01ctree", "Octave.Props.C01unified", "Octave.Props.C01document"], extra_targets=())
+    ctx.lean("text", ["Octave.Props.C01roundtrip", "Octave.Props.C01tree", "Octave.Props.C01meta", "Octave.Props.C01sections", "Octave.Props.C01lists", "Octave.Props.C01ctree", "Octave.Props.C01unified", "Octave.Props.C01document", "Octave.Props.C01master"], extra_targets=())
     changed = vlib.fingerprints_changed(ctx.prop, ANCHORS)
     if changed:
         ctx.widen = max(ctx.widen, 8)
@@ -417,6 +515,11 @@ def run(ctx: vlib.Ctx):
         doc = case["doc"]
         ctx.case({"doc": doc, "via": case["via"]}, nontrivial=bool(doc["sections"]))
         ctx.count("origin:" + case["origin"])
+        if case["origin"] == "lookalike":
+            ctx.count("lookalike_position:" + case["fam_pos"])
+        ctx.count("strings_lookalike:%d" % min(3, sum(1 for v in PD.doc_values(doc) if v["t"] == "str" and v["v"] in LOOKALIKE_SET)))
+        if any(v["t"] == "zone" and v["c"] in LOOKALIKE_ZONES for v in PD.doc_values(doc)):
+            ctx.count("has:zone_with_line_boundary_character")
         ctx.count("via:" + case["via"])
         for nm, pred in (("meta", bool(doc["meta"])), ("frontmatter", doc["front"] is not None), ("sentinel", bool(doc["gv"])), ("separator", doc["sep"]),
                          ("section", PD.has_section(doc)), ("zone", PD.has_kind(doc, "zone")), ("holo", PD.has_kind(doc, "holo")), ("list", PD.has_kind(doc, "list")),
